@@ -401,7 +401,134 @@ class Inliner:
         setattr(st, field, R().visit(expr))
         return rep + [st]
 
+    def _try_generator(self, st, nested, caller_names):
+        """`for v in gen(args): BODY` and `L.extend(gen(args))` where gen is a NEW
+        private generator function: the generator's body with every `yield E`
+        replaced by `v = E; BODY` (BODY without break/continue of its own; the
+        generator without return statements and with yields only as statements)"""
+        body = None
+        if isinstance(st, ast.For) and isinstance(st.iter, ast.Call) and not st.orelse:
+            call, target, body = st.iter, st.target, st.body
+        elif isinstance(st, ast.Expr) and isinstance(st.value, ast.Call) and \
+                isinstance(st.value.func, ast.Attribute) and st.value.func.attr == 'extend' \
+                and len(st.value.args) == 1 and not st.value.keywords and \
+                isinstance(st.value.args[0], ast.Call):
+            call = st.value.args[0]
+            self.counter += 1
+            tv = '_inl%d_item' % self.counter
+            target = ast.Name(id=tv, ctx=ast.Store())
+            body = [ast.Expr(value=ast.Call(
+                func=ast.Attribute(value=clone(st.value.func.value), attr='append',
+                                   ctx=ast.Load()),
+                args=[ast.Name(id=tv, ctx=ast.Load())], keywords=[]))]
+        if body is None:
+            return None
+        helper, skip_self = self._helper_for(call, nested)
+        if helper is None:
+            return None
+        hb = helper.body
+        if hb and isinstance(hb[0], ast.Expr) and isinstance(hb[0].value, ast.Constant) and \
+                isinstance(hb[0].value.value, str):
+            hb = hb[1:]
+        ys = [n for s_ in hb for n in ast.walk(s_) if isinstance(n, (ast.Yield, ast.YieldFrom))]
+        if not ys:
+            return None
+        if any(isinstance(n, (ast.Return, ast.Lambda) + FUNC) for s_ in hb for n in ast.walk(s_)):
+            return None
+
+        def own_jump(stmts):
+            for s_ in stmts:
+                if isinstance(s_, (ast.Break, ast.Continue)):
+                    return True
+                if isinstance(s_, (ast.For, ast.While) + FUNC):
+                    continue
+                for f_ in ('body', 'orelse', 'finalbody'):
+                    if own_jump(getattr(s_, f_, []) or []):
+                        return True
+                if isinstance(s_, ast.Try):
+                    for h_ in s_.handlers:
+                        if own_jump(h_.body):
+                            return True
+            return False
+        if own_jump(body):
+            return None
+        try:
+            m = _bind(helper, call, skip_self)
+        except _Fail:
+            return None
+        self.counter += 1
+        pre, mapping = [], {}
+        gbody = [clone(s_) for s_ in hb]
+        locals_ = _assigned_names(gbody)
+        for p_, arg in m.items():
+            if (_simple(arg) or isinstance(arg, ast.Lambda)) and p_ not in locals_:
+                mapping[p_] = arg
+            else:
+                tmp = p_ if (p_ not in caller_names) else '_inl%d_%s' % (self.counter, p_)
+                pre.append(ast.Assign(targets=[ast.Name(id=tmp, ctx=ast.Store())], value=arg))
+                mapping[p_] = ast.Name(id=tmp, ctx=ast.Load())
+                caller_names.add(tmp)
+        if skip_self:
+            mapping[helper.args.args[0].arg] = ast.Name(id='self', ctx=ast.Load())
+        for name in locals_:
+            if name in m:
+                continue
+            if name in caller_names:
+                new = '_inl%d_%s' % (self.counter, name)
+                mapping[name] = ast.Name(id=new, ctx=ast.Load())
+                caller_names.add(new)
+            else:
+                caller_names.add(name)
+        sub = _Subst(mapping)
+        gbody = [sub.visit(s_) for s_ in gbody]
+        ok = [True]
+
+        def expand(stmts):
+            out = []
+            for s_ in stmts:
+                if isinstance(s_, ast.Expr) and isinstance(s_.value, ast.Yield):
+                    val = s_.value.value or ast.Constant(value=None)
+                    out.append(ast.Assign(targets=[clone(target)], value=val))
+                    out.extend(clone(b) for b in body)
+                    continue
+                if isinstance(s_, ast.Expr) and isinstance(s_.value, ast.YieldFrom):
+                    out.append(ast.For(target=clone(target), iter=s_.value.value,
+                                       body=[clone(b) for b in body], orelse=[],
+                                       type_comment=None))
+                    continue
+                if any(isinstance(n, (ast.Yield, ast.YieldFrom)) for n in ast.walk(s_)) and \
+                        not any(hasattr(s_, f_) for f_ in ('body',)):
+                    ok[0] = False
+                for f_ in ('body', 'orelse', 'finalbody'):
+                    blk = getattr(s_, f_, None)
+                    if isinstance(blk, list) and blk and isinstance(blk[0], ast.stmt):
+                        setattr(s_, f_, expand(blk))
+                if isinstance(s_, ast.Try):
+                    for h_ in s_.handlers:
+                        h_.body = expand(h_.body)
+                # a yield left in a header expression cannot be expressed
+                for fld in ('test', 'iter', 'value'):
+                    e_ = getattr(s_, fld, None)
+                    if isinstance(e_, ast.AST) and any(
+                            isinstance(n, (ast.Yield, ast.YieldFrom)) for n in ast.walk(e_)):
+                        ok[0] = False
+                out.append(s_)
+            return out
+        res = pre + expand(gbody)
+        if not ok[0]:
+            return None
+        for s_ in res:
+            ast.copy_location(s_, st)
+            for n in ast.walk(s_):
+                if not hasattr(n, 'lineno'):
+                    ast.copy_location(n, st)
+        self.inlined.append(helper.name)
+        return res
+
     def _try_stmt(self, st, nested, caller_names):
+        g_ = self._try_generator(st, nested, caller_names)
+        if g_ is not None:
+            return g_
         call = None
         target = None
         kind = None
